@@ -164,6 +164,9 @@ def _dec(r):
         return {_hashable(_dec(k)): _dec(x) for k, x in v}
     if t == 'float':
         return float(v)
+    if t == 'Decimal':
+        import decimal
+        return decimal.Decimal(v)
     if t == 'bytes':
         return bytes.fromhex(v)
     return ('opaque', t, v)
@@ -185,6 +188,11 @@ def veq(a, b):
         if isinstance(a, (int, E.SInt, E.SBool)) and isinstance(b, (int, E.SInt, E.SBool)):
             return E.zint(a) == E.zint(b)
         return False
+    if isinstance(a, E.SDecimal) or isinstance(b, E.SDecimal):
+        if not isinstance(a, E.SDecimal):
+            a, b = b, a
+        r = a.__eq__(b)
+        return r.z if isinstance(r, E.SBool) else bool(r)
     if isinstance(a, E.SDate) or isinstance(b, E.SDate):
         if isinstance(a, (E.SDate, datetime.date)) and isinstance(b, (E.SDate, datetime.date)):
             return E.zbool(E.SDate.of(a) == b)
@@ -356,7 +364,8 @@ def run_relation_unit(unit, script):
 
 
 def _comparable(v):
-    if isinstance(v, (str, int, bool, type(None), datetime.date)):
+    import decimal
+    if isinstance(v, (str, int, bool, type(None), datetime.date, decimal.Decimal)):
         return True
     if isinstance(v, (list, tuple)):
         return all(_comparable(e) for e in v)
